@@ -102,11 +102,47 @@ def trace_request(tag, params, k):
     raise ValueError(params)
 
 
+def norm_free_runs(ev):
+    """the order in which the blocks of an opaque sub-object (the copied Constraint) are released is not part of the model: every maximal
+    run of consecutive free events is compared as a multiset"""
+    out, run = [], []
+    for t in ev.split():
+        if t[0] == "F": run.append(t)
+        else:
+            out += sorted(run); run = []; out.append(t)
+    return " ".join(out + sorted(run))
+
+
+def mip_subs(lines, size, cap, newcap, csize):
+    """sub-allocations of `new Constraint(c)` read off the successful real trace: everything after the node"""
+    ok = [l for l in lines if l.startswith("trace k=") and " ok=1 " in l]
+    if not ok: return None
+    ev = ok[-1].split(" ev", 1)[1].split()
+    allocs = [t for t in ev if t[0] == "A"]
+    if size == cap: allocs = allocs[1:]                 # the reserve
+    if not allocs or allocs[0] != "An%d" % csize: return None
+    return ["%s %s" % (t[1], t[2:]) for t in allocs[1:]]
+
+
 def run_traces(chk, exe, judge, names):
     reqs, real = [], {}
     for n in names:
         rc, out = common.sh([exe, "trace", n], timeout=120)
         params = None
+        mip = None
+        if n.startswith("mip_add_"):
+            hdr = [l for l in out.split("\n") if l.startswith("tracescn ")]
+            if hdr:
+                kvh = c14_fault.parse_kv(hdr[0])
+                subs = mip_subs(out.split("\n"), int(kvh["size"]), int(kvh["cap"]), int(kvh["newcap"]), int(kvh["csize"]))
+                if subs is None:
+                    # the model (proved balanced) reserves room in input_cs BEFORE the new-expression: a successful real trace that is not
+                    # [reserve, release of the old buffer,] node, sub-allocations does not follow that order
+                    chk.failure({"mode": "trace", "kind": "trace-differs", "site": "mip_add", "family": "container", "model_agrees": False},
+                                {"scenario": n, "params": hdr[0], "successful_real_trace": [l for l in out.split("\n") if " ok=1 " in l][-1:],
+                                 "expected_order": "size == capacity: An<8*newcap> Fn<8*cap> An<sizeof(Constraint)> <sub-allocations>; otherwise An<sizeof(Constraint)> <sub-allocations>"})
+                    continue
+                mip = (kvh, subs)
         for l in out.split("\n"):
             if l.startswith("tracescn "):
                 params = l.split(" ", 2)[2]
@@ -115,7 +151,11 @@ def run_traces(chk, exe, judge, names):
                 k = int(kv["k"]); tag = "%s@%d" % (n, k)
                 ev = l.split(" ev", 1)[1].strip() if " ev" in l else ""
                 real[tag] = {"ok": kv["ok"], "leaked": kv["leaked"], "owned": kv["owned"], "valid": kv.get("valid", "-"), "ev": ev, "params": params, "scenario": n, "k": k}
-                reqs.append(trace_request(tag, params, k))
+                if mip:
+                    kvh, subs = mip
+                    reqs.append("trace %s mip_add %d %s %s %s %s %d %s" % (tag, k, kvh["size"], kvh["cap"], kvh["newcap"], kvh["csize"], len(subs), " ".join(subs)))
+                else:
+                    reqs.append(trace_request(tag, params, k))
         if rc != 0:
             chk.broken.append(("trace-harness", "%s: rc=%s %s" % (n, rc, out[-300:])))
     work = os.path.join(common.BUILD, "work-C14-tr-%d" % os.getpid()); os.makedirs(work, exist_ok=True)
@@ -134,8 +174,9 @@ def run_traces(chk, exe, judge, names):
     for tag, r in sorted(real.items()):
         m = model.get(tag)
         prog = r["params"].split(" ")[0]
-        cmp_owned = prog != "sv_reserve"     # the model counts the vector's buffer only
-        same = m is not None and m["ok"] == r["ok"] and m["leaked"] == r["leaked"] and m["ev"] == r["ev"] and (not cmp_owned or m["owned"] == r["owned"]) \
+        cmp_owned = prog not in ("sv_reserve", "mip_add")     # the model counts the vector's buffer only
+        ev_same = m is not None and (m["ev"] == r["ev"] or (prog == "mip_add" and norm_free_runs(m["ev"]) == norm_free_runs(r["ev"])))
+        same = m is not None and m["ok"] == r["ok"] and m["leaked"] == r["leaked"] and ev_same and (not cmp_owned or m["owned"] == r["owned"]) \
             and (m["valid"] == "-" or m["valid"] == r["valid"])
         if not same:
             detail = "real %s | model %s" % (json.dumps({k: r[k] for k in ("ok", "leaked", "owned", "valid", "ev")}), json.dumps(m))
@@ -144,7 +185,9 @@ def run_traces(chk, exe, judge, names):
                 agg.add({"mode": "trace", "kind": "leak" if r["leaked"] != "0" else "invalid", "site": prog, "family": "container", "model_agrees": False},
                         {"scenario": r["scenario"], "k": r["k"], "params": r["params"], "detail": detail, "theorem": "C14_cotree_%s_unwind_balanced (model of the current text)" % {"iter": "iter_ctor", "copy": "copy_ctor", "rebuild": "rebuild_bigger"}.get(prog, prog)})
             else:
-                chk.broken.append(("trace-mismatch:" + tag, detail))
+                # no leak observed, but the real code does not perform the allocations / releases in the order the (proved) model states
+                agg.add({"mode": "trace", "kind": "trace-differs", "site": prog, "family": "container", "model_agrees": False},
+                        {"scenario": r["scenario"], "k": r["k"], "params": r["params"], "detail": detail})
             continue
         agree += 1; events += len(r["ev"].split())
         chk.count(1, key=("trace", prog, r["ok"], r["leaked"] != "0", r["valid"]))
@@ -289,7 +332,7 @@ def run(chk):
         "rejection of Box / BD_Shape / Octagonal_Shape / Grid / PIP calls is not modelled (time); they take part in the fault enumeration only",
         "concatenate_assign / constructor-from-system space-dimension overflow cannot be exercised (needs an argument of dimension > 2^60): proved in the model only",
     ]
-    chk.prove(["Except/Precond.v", "Except/Alloc.v", "Except/AllocProgs.v"])
+    chk.prove(["Except/Precond.v", "Except/Alloc.v", "Except/AllocProgs.v", "Except/AllocTraceMip.v"])
     # --replay: re-run only the part (and, for the fault modes, only the scenarios) named by the replay file, with its seed and tier
     only, only_scn = None, None
     if chk.replay:
@@ -301,7 +344,7 @@ def run(chk):
     def want(mode): return only is None or only == mode
     # ---- builds ----
     common.coq_extract("ExtractBase.v", ["base.ml", "base.mli"], deps=polycheck.BASE_COQ + ["Extract/ExtractBase.v"])
-    common.coq_extract("Extract_except.v", ["except.ml", "except.mli"], deps=["Except/Precond.v", "Except/Alloc.v", "Except/AllocProgs.v", "Extract/Extract_except.v"])
+    common.coq_extract("Extract_except.v", ["except.ml", "except.mli"], deps=["Except/Precond.v", "Except/Alloc.v", "Except/AllocProgs.v", "Except/AllocTraceMip.v", "Extract/Extract_except.v"])
     judge_poly = common.ocaml_build("judge_poly", ["gen/base.mli", "gen/base.ml", "zutil.ml", "judge_poly.ml"])
     judge_exc = common.ocaml_build("judge_except", ["gen/except.mli", "gen/except.ml", "judge_except.ml"])
     rej_exe = build_reject()
